@@ -93,6 +93,13 @@ def oracle_c06(snap, stage):
         counters["identities_checked"] += 1
         if number > 1:
             add("two nodes with the same identity", f"{ident} x{number}")
+    # ... also when the test was reached through different test sets (all.x as somebody's setup, normal.x as a selected test):
+    # the same test for the same worker and objects is one node
+    semantic = collections.Counter((n["cls"], n["worker"]) for n in nodes if not n["flat"] and not n["shared_root"] and not n["clone_source"])
+    for (cls, worker), number in semantic.items():
+        counters["set_invariant_identities_checked"] += 1
+        if number > 1:
+            add("two nodes with the same identity (same test, worker and objects under different test sets)", f"{cls} on {worker} x{number}")
     # exactly one starting node, everything reachable
     roots = [n for n in nodes if n["shared_root"]]
     if len(roots) != 1:
